@@ -18,7 +18,7 @@ EXEC = {
     'C01': dict(owns=['C01'], decide='C01_SuccessValid (MC); ValidOf on the logged destination of every successful real run',
                 q='file:0,universe:1200,random:400,success:500,nan:0', t='file:0,universe:0,random:10000,success:8000,nan:0'),
     'C02': dict(owns=['C02', 'C02T', 'C02M'], decide='C02_Exact (MC); bag of logged (path,code,type) = RefIssues; lock-step issue/swallow events',
-                q='file:0,universe:1200,random:500,nan:0,flat:200', t='file:0,universe:0,random:12000,nan:0,flat:5000'),
+                q='file:0,universe:1200,random:500,nan:0,flat:200,badjson:0', t='file:0,universe:0,random:12000,nan:0,flat:5000,badjson:0'),
     'C05': dict(owns=['C05'], decide='C05_NonInterference, M_DestAll (MC); logged issues off catching paths = reference of Uncatch(schema); destination of every catching node = reference in every run (catch-dest)',
                 q='file:0,universe:1200,random:500,catch:400,catchpt:200', t='file:0,universe:0,random:8000,catch:6000,catchpt:3000'),
     'C04': dict(owns=['C04', 'C02T'], decide='TableOK (the reference obeys the literal statement of C04 on every row of Tab_C04), C04_Machine (MC over all rows); '
@@ -26,7 +26,7 @@ EXEC = {
                 q='file:0,random:300,flat:200,emptydoc:60', t='file:0,random:6000,flat:5000,emptydoc:600', table='Tab_C04'),
     'C10': dict(owns=['C10'], decide='issue map structure on every logged result (key = path, $first = first recorded issue event, sanitizers), lock-step field events '
                 '(schema key -> resolved input key, KeyOf tag priority at every depth), every issue path in NodePathsOf(case) (node paths + IssuePath overrides incl. Required/NotNil), right issues under wrong paths (issue-paths)',
-                q='file:0,tags:900,random:300,long:0,deep:0', t='file:0,tags:8000,random:4000,long:0,deep:0'),
+                q='file:0,tags:900,random:300,long:0,deep:0,badjson:0', t='file:0,tags:8000,random:4000,long:0,deep:0,badjson:0'),
     'C12': dict(owns=['C12'], decide='C12_PTOnlyWhenClean, C12_CallbackArgs (MC); lock-step test/pt events with argument class, value seen and ctx.Get snapshot; how PostTransform/Preprocess errors (plain, ZogIssue, error wrapping a ZogIssue) become issues',
                 q='file:0,universe:600,callbacks:600,preprocess:300,random:200', t='file:0,universe:0,callbacks:10000,preprocess:4000,random:4000'),
     'C13': dict(owns=['C13'], decide='pairs Validate(&v) / Parse(toMap(v), &fresh) on fully populated values: TLC compares the two logged results (path, code, type, message, value) '
@@ -62,9 +62,11 @@ def gen_traps():
     cases = []
     for sw in vlib.SWITCHES_EXEC:
         cfg = vlib.cfg_text(vlib.exec_consts(off=[sw], extra={'Tier': '"trap"'}), invariants=EXEC_INVS, properties=EXEC_PROPS, view='View')
-        res = vlib.run_tlc('MC_Exec', cfg, workers=8, timeout=300, dump=True)
+        res = vlib.run_tlc('MC_Exec', cfg, workers=8, timeout=900, dump=True)
+        if res.get('timeout'):
+            raise Inconclusive('trap generation for %s timed out' % sw)
         if not res['ce']:
-            continue  # not distinguishing inside the trap universe (e.g. needs a front end)
+            continue  # not distinguishing inside the trap universe (needs a front end; or made unobservable by a repair)
         ce = json.load(open(res['ce']))['counterexample']
         c = ce['state'][0][1]['case']
         c['id'] = 'trap-' + sw
@@ -288,7 +290,9 @@ def pools_engine(prop, tier, replay, t0):
             st = vlib.harness(['pools', '-concurrent', '4', '-episodes', '400' if thorough else '60', '-calls', '3', '-seed', str(vlib.seed()), '-out', trace])
         except Inconclusive as ex:
             # the Go runtime kills the process on unrecoverable concurrency faults inside the library: that IS a C08 violation
-            if 'fatal error: concurrent map' in str(ex) or 'fatal error: all goroutines are asleep' in str(ex):
+            msg = str(ex)
+            lib_frames = 'github.com/Oudwins/zog' in msg or (vlib.REPO + '/') in msg
+            if 'fatal error:' in msg or ('panic:' in msg and lib_frames) or 'unexpected signal' in msg:
                 os.makedirs(vlib.REPLAY, exist_ok=True)
                 path = '%s/C08-fatal.txt' % vlib.REPLAY
                 open(path, 'w').write(str(ex))
